@@ -14,6 +14,15 @@ import os
 from . import common
 
 CLASSES = [["a", "b"], ["a", "b", "c"], ["pos", "w"], ["x"]]
+# constructor signatures a history may give its four component classes (the first entry is the table above); with
+# `class_names` several classes of one history carry the same __module__ / __qualname__ / __name__ (as classes returned
+# by a class factory do) and with `bases` one class derives from another and overrides its constructor
+CLASS_POOL = [
+    [["a", "b"], ["b", "a"], ["a"], ["a", "b", "c"], ["a", "c"], ["b"]],
+    [["a", "b", "c"], ["a", "b"], ["c", "a", "b"], ["a", "b", "x"], ["b"], ["a", "c"]],
+    [["pos", "w"], ["w", "pos"], ["pos", "w", "a"], ["pos"], ["a", "pos"]],
+    [["x"], ["x", "a"], ["a", "b"], ["b", "x", "a"], ["a", "b", "c"]],
+]
 MODEL_EXTRA = ["e", "f", "g"]
 COLL_KEYS = ["m", "n", "k", "q", "r", "s"]
 NPRIORS = 14
@@ -54,6 +63,8 @@ class MObj:
 class Mirror:
     def __init__(self, case):
         self.classes = case["classes"]
+        self.names = case.get("class_names") or ["K%d" % i for i in range(len(self.classes))]
+        self.bases = case.get("bases") or [None] * len(self.classes)
         self.limits = {p: (lo, hi) for p, lo, hi in case["priors"]}
         self.objs = []
         self.stale = {}        # frozen object -> labels of what changed below it since its cache could be filled
@@ -65,6 +76,18 @@ class Mirror:
 
     def is_pm(self, v):
         return v[0] == "r" and v[1] < len(self.objs) and self.objs[v[1]].kind != "tuple"
+
+    # -- classes ----------------------------------------------------------------
+    def aliased(self, cls):
+        """is `module.name` of this class some OTHER class (an earlier one of the same name)?"""
+        return self.names.index(self.names[cls]) != cls
+
+    def by_name_ok(self, o):
+        """can o be stored in a form that names classes by their import path (database form)?"""
+        return not any(self.objs[t].kind == "model" and self.aliased(self.objs[t].cls) for t in self.reach(o))
+
+    def has_subclass(self, cls):
+        return any(b == cls for b in self.bases)
 
     # -- reachability ---------------------------------------------------------
     def reach(self, o, acc=None):
@@ -496,14 +519,16 @@ class Mirror:
 # generator
 # ---------------------------------------------------------------------------
 class Gen:
-    def __init__(self, rng, dirty, max_ops, failwalk=False, ids=False):
+    def __init__(self, rng, dirty, max_ops, failwalk=False, ids=False, shape=None):
         self.rng, self.dirty, self.max_ops, self.failwalk, self.ids = rng, dirty, max_ops, failwalk, ids
+        shape = shape or {"classes": CLASSES, "class_names": ["K0", "K1", "K2", "K3"], "bases": [None] * 4}
+        self.classes = shape["classes"]
         pri = []
         for p in range(NPRIORS):
             lo = rng.choice([0, 0, 0, 1, 2])
             hi = lo + rng.choice([4, 4, 8, 12, 20])      # multiples of 4: units q/4 give integers
             pri.append([p, lo, hi])
-        self.case = {"classes": CLASSES, "priors": pri, "ops": []}
+        self.case = {"classes": self.classes, "class_names": shape["class_names"], "bases": shape["bases"], "priors": pri, "ops": []}
         self.m = Mirror(self.case)
         self.next_prior = 0
 
@@ -542,19 +567,33 @@ class Gen:
                 return ["r", r.choice(cands)]
         return self.leafval()
 
+    def new_model(self, cls, depth):
+        r = self.rng
+        attrs = []
+        for name in self.classes[cls]:
+            if name == "pos":
+                attrs.append([name, ["r", self.new_tuple()]])
+            else:
+                attrs.append([name, self.child_value(depth, avoid_frozen=r.random() < 0.9)])
+        if r.random() < 0.2:
+            attrs.append([r.choice(MODEL_EXTRA), ["c", r.randint(1, 9)] if r.random() < 0.7 else self.leafval()])
+        self.emit(["new", "model", cls, attrs, 0])
+        return len(self.m.objs) - 1
+
+    def rival_class(self):
+        """a class whose name some composed model's class also carries, with another constructor (None: no such class)"""
+        used = {ob.cls for ob in self.m.objs if ob.kind == "model"}
+        names = self.m.names
+        cands = [c for c in range(len(self.classes)) if c not in used and any(
+            names[u] == names[c] and self.classes[u] != self.classes[c] for u in used)]
+        cands += [c for c in range(len(self.classes)) if c not in used and any(
+            self.m.bases[c] == u or self.m.bases[u] == c for u in used)]
+        return self.rng.choice(cands) if cands else None
+
     def new_object(self, depth):
         r = self.rng
         if r.random() < 0.6:
-            cls = r.choice([0, 0, 1, 2, 3])
-            attrs = []
-            for name in CLASSES[cls]:
-                if name == "pos":
-                    attrs.append([name, ["r", self.new_tuple()]])
-                else:
-                    attrs.append([name, self.child_value(depth, avoid_frozen=r.random() < 0.9)])
-            if r.random() < 0.2:
-                attrs.append([r.choice(MODEL_EXTRA), ["c", r.randint(1, 9)] if r.random() < 0.7 else self.leafval()])
-            self.emit(["new", "model", cls, attrs, 0])
+            self.new_model(r.choice([0, 0, 1, 2, 3]), depth)
         else:
             n = r.randint(1, 3)
             if r.random() < 0.3:
@@ -591,7 +630,9 @@ class Gen:
                 qs = qs[:-1] if qs and self.rng.random() < 0.5 else qs + [2]
             return ["query", o, [k, qs]]
         if k == "models":
-            return ["query", o, [k, self.rng.choice([None, None, 0, 1, 2, 3]), self.rng.random() < 0.4]]
+            # a class with subclasses is not used as the filter (the model compares classes by identity)
+            return ["query", o, [k, self.rng.choice([None, None] + [c for c in range(len(self.classes)) if not self.m.has_subclass(c)]),
+                                 self.rng.random() < 0.4]]
         return ["query", o, [k, self.vector(o)] if k == "instance" else [k]]
 
     def allowed_mod(self, t):
@@ -621,7 +662,7 @@ class Gen:
                 if not self.allowed_mod(o):
                     return None
                 return ["set", o, "pos_%d" % r.randint(0, 3), self.leafval()]
-            if ob.kind == "model" and ob.cls == 2 and r.random() < 0.5:
+            if ob.kind == "model" and "pos" in self.classes[ob.cls] and r.random() < 0.5:
                 name = r.choice(["pos_%d" % r.randint(0, 2)] * 4 + ["pos_0_1", "w_1"])
                 t = m.set_target(o, name)
                 if not ob.frozen and not self.allowed_mod(t):
@@ -629,7 +670,7 @@ class Gen:
                 return ["set", o, name, self.leafval()]
             if not ob.frozen and not self.allowed_mod(o):
                 return None
-            names = (CLASSES[ob.cls] + MODEL_EXTRA) if ob.kind == "model" else COLL_KEYS
+            names = (self.classes[ob.cls] + MODEL_EXTRA) if ob.kind == "model" else COLL_KEYS
             name = r.choice([n for n in names if n != "pos"] or names)
             if ob.kind == "coll" and r.random() < (0.7 if self.ids else 0.4):
                 if self.ids and ob.attrs and r.random() < 0.7:
@@ -682,7 +723,7 @@ class Gen:
                 return ["copy", o]
             if y < 0.6:
                 return ["copy", o, "pickle"]
-            if y < 0.8 or m.loops(o):
+            if y < 0.8 or m.loops(o) or not m.by_name_ok(o):      # the database form names a class by its import path
                 return ["restore", o, "shallow"]
             return ["restore", o, "database"]
         if x < 0.93:
@@ -692,7 +733,13 @@ class Gen:
             return ["derive", o]
         if x < 0.96:
             if len(m.objs) < 40:
-                self.new_object(r.randint(0, 1))
+                rival = self.rival_class()
+                if rival is not None and r.random() < 0.6:
+                    o = self.new_model(rival, r.randint(0, 1))     # a model of another class of the same name, mid-history
+                    if not self.m.loops(o):
+                        self.emit(self.query(o))
+                else:
+                    self.new_object(r.randint(0, 1))
             return None
         if self.failwalk:
             return ["failwalk", r.choice(pms)]
@@ -710,6 +757,11 @@ class Gen:
         r = self.rng
         for _ in range(r.randint(1, 3)):
             self.new_object(r.randint(0, 2))
+        # several models alive at once whose classes share a name (or a parent) and differ in their constructor
+        for _ in range(2):
+            rival = self.rival_class()
+            if rival is not None and r.random() < 0.7:
+                self.new_model(rival, r.randint(0, 1))
         # make sure a root collection over several live models exists in most cases
         if r.random() < 0.7 and len(self.pms()) >= 2:
             kids = r.sample(self.pms(), min(len(self.pms()), r.randint(1, 3)))
@@ -734,7 +786,9 @@ def scenario_cases():
     """Hand-written histories: one per mechanism (always run first)."""
     P = lambda i: ["p", i]
     pri = [[p, 0, 8] for p in range(NPRIORS)]
-    base = lambda ops: {"classes": CLASSES, "priors": pri, "ops": ops}
+    base = lambda ops, classes=CLASSES, names=None, bases=None: {
+        "classes": classes, "class_names": names or ["K%d" % i for i in range(len(classes))],
+        "bases": bases or [None] * len(classes), "priors": pri, "ops": ops}
     leafm = lambda a, b: ["new", "model", 0, [["a", P(a)], ["b", P(b)]], 0]
     qs = lambda o: [["query", o, ["count"]], ["query", o, ["paths"]], ["query", o, ["ordered"]], ["query", o, ["info"]],
                     ["query", o, ["models", None, False]], ["query", o, ["models", 0, True]]]
@@ -815,7 +869,60 @@ def scenario_cases():
     out.append(base([["new", "coll", None, [["m", P(0)]], 0], ["set", 0, "q", ["r", 0]], ["set", 0, "n", P(1)], ["query", 0, ["count"]],
                      ["query", 0, ["paths"]], ["query", 0, ["info"]], ["freeze", 0], ["query", 0, ["count"]], ["copy", 0],
                      ["query", 1, ["count"]], ["query", 0, ["models", None, True]], ["unfreeze", 0], ["del", 0, "q"], ["query", 0, ["count"]]]))
+    # several models alive at once whose classes are distinct objects of ONE name (a class factory) with different
+    # constructors: what each reports depends on its own class only, whichever was composed first, also on frozen
+    # copies and after freeze / unfreeze cycles
+    narrow = lambda a, b: ["new", "model", 0, [["a", P(a)], ["b", P(b)]], 0]
+    wide = lambda a, b, c: ["new", "model", 1, [["a", P(a)], ["b", P(b)], ["c", c]], 0]
+    ask = lambda o, vec: [["query", o, ["count"]], ["query", o, ["paths"]], ["query", o, ["instance", vec]], ["query", o, ["info"]],
+                          ["query", o, ["unit", [1] * len(vec)]], ["query", o, ["models", None, True]]]
+    for names, bases in ((["P", "P", "Q", "P"], None), (["P", "Q", "R", "S"], [None, 0, None, None]), (["P", "P", "P", "P"], [None, 0, None, 1])):
+        for first in (0, 1):
+            two = [narrow(0, 1), wide(2, 3, ["c", 5])] if first == 0 else [wide(2, 3, ["c", 5]), narrow(0, 1)]
+            n, w = (0, 1) if first == 0 else (1, 0)
+            out.append(base(two + ask(n, [1, 2]) + ask(w, [3, 4]) +
+                            [["new", "coll", None, [["m", ["r", 0]], ["n", ["r", 1]]], 0]] + ask(2, [1, 2, 3, 4]) +
+                            [["freeze", 2]] + ask(2, [1, 2, 3, 4]) + [["copy", 2], ["copy", 2, "pickle"], ["restore", w, "shallow"]] +
+                            ask(3, [1, 2, 3, 4]) + ask(6, [4, 3, 2, 1]) + [["unfreeze", 2], ["set", w, "c", P(4)], ["set", n, "e", ["c", 7]]] +
+                            ask(w, [3, 4, 5]) + ask(n, [1, 2]) + ask(2, [1, 2, 3, 4, 5]) +
+                            [["new", "model", 3, [["x", P(6)]], 0], ["derive", 2]] + ask(10, [2]) + ask(w, [3, 4, 5]),
+                            classes=[["a", "b"], ["a", "b", "c"], ["pos", "w"], ["x"]], names=names, bases=bases))
+    # same name, same arguments in another order / a subset of the arguments / disjoint arguments
+    for table in ([["a", "b"], ["b", "a"], ["pos", "w"], ["a"]], [["a", "b", "c"], ["c"], ["w", "pos"], ["b", "x", "a"]]):
+        for order in ((0, 1, 3), (3, 1, 0), (1, 3, 0)):
+            ops, objs = [], {}
+            for c in order:
+                ops.append(["new", "model", c, [[nm, P(len(ops) * 3 + j)] for j, nm in enumerate(table[c])], 0])
+                objs[c] = len(ops) - 1
+            for c in order:
+                vec = list(range(1, len(table[c]) + 1))
+                ops += ask(objs[c], vec) + [["freeze", objs[c]]] + ask(objs[c], vec)
+            out.append(base(ops, classes=table, names=["P", "P", "P", "P"]))
     return out
+
+
+def class_shape(rng):
+    """class table of a generated history: constructor signatures, names, parents"""
+    x = rng.random()
+    if x < 0.25:
+        return {"classes": CLASSES, "class_names": ["K0", "K1", "K2", "K3"], "bases": [None] * 4}
+    classes = [pool[0] if rng.random() < 0.45 else rng.choice(pool) for pool in CLASS_POOL]
+    y = rng.random()
+    names = ["P"] * 4 if y < 0.4 else [rng.choice(["P", "P", "Q"]) for _ in range(4)] if y < 0.85 else ["K0", "K1", "K2", "K3"]
+    bases = [None] * 4
+    if rng.random() < 0.3:
+        for c in rng.sample([1, 2, 3], rng.choice([1, 1, 2])):
+            bases[c] = rng.randrange(c)
+    return {"classes": classes, "class_names": names, "bases": bases}
+
+
+def case_key(c):
+    key = {"classes": c["classes"], "priors": c["priors"], "ops": c["ops"]}
+    if c.get("class_names") is not None:
+        key["class_names"] = c["class_names"]
+    if c.get("bases") is not None:
+        key["bases"] = c["bases"]
+    return key
 
 
 def gen_cases(ctx):
@@ -832,7 +939,7 @@ def gen_cases(ctx):
         x = ctx.rng.random()
         mode = "clean" if x < 0.55 else "stale" if x < 0.78 else "ids" if x < 0.90 else "poison"
         g = Gen(ctx.rng, mode in ("stale", "poison"), ctx.rng.choice([12, 20, 30, 40] + ([60] if thorough else [])),
-                failwalk=(mode == "poison"), ids=(mode == "ids"))
+                failwalk=(mode == "poison"), ids=(mode == "ids"), shape=class_shape(ctx.rng))
         c = g.build()
         c["origin"] = mode
         cases.append(c)
@@ -876,6 +983,13 @@ def oracle(case, res, limit=6):
             target_uncertain = any(m.lost.get(f) for f in m.reach(op[1]))
         exp, labels = m.apply(op)
         got = {"exc": r["exc"]} if "exc" in r else {"ok": r.get("ok")}
+        if k in ("query", "new") and r.get("ctor") is not None and (k == "query" or (exp is not None and "ok" in exp)):
+            ob = m.objs[op[1]] if k == "query" else m.objs[-1]
+            if ob.kind != "model" or r["ctor"] != m.classes[ob.cls]:
+                if fail("constructor_argument_names of %s is %s but its class takes %s" % (
+                        "object %d" % op[1] if k == "query" else "the new model", r["ctor"],
+                        m.classes[ob.cls] if ob.kind == "model" else None), [], i):
+                    break
         if k == "query":
             classes = pre_relevant
             if "ok" in got:
@@ -986,6 +1100,28 @@ def nontrivial(case):
         elif k == "query" and froze and changed:
             return True
     return False
+
+
+def rival_pairs(case):
+    """pairs of classes BOTH composed in the history that share a name (or are parent and child) and differ in
+    their constructor -- the shape in which a per-class answer could leak from one class to another"""
+    m = Mirror(case)
+    used = []
+    for op in case["ops"]:
+        if op[0] == "new" and op[1] == "model" and op[2] not in used:
+            used.append(op[2])
+    return [(u, v) for i, u in enumerate(used) for v in used[i + 1:]
+            if m.classes[u] != m.classes[v] and (m.names[u] == m.names[v] or m.bases[u] == v or m.bases[v] == u)]
+
+
+def class_table_kind(case):
+    m = Mirror(case)
+    kind = "default-table" if case["classes"] == CLASSES else "varied-table"
+    if len(set(m.names)) < len(m.names):
+        kind += "+shared-names"
+    if any(b is not None for b in m.bases):
+        kind += "+subclass"
+    return kind + ("+rivals-composed" if rival_pairs(case) else "")
 
 
 # ---------------------------------------------------------------------------
@@ -1105,6 +1241,28 @@ def coq_case(case, res):
     return "Case %s %s\n   %s\n   %s\n   %s" % (cl, pr, ops, outs, fz)
 
 
+def coq_ccase(case, res):
+    """the lookups of the process-wide constructor-argument memo made by the history, in order, with what the model
+    reported (ClassArgs.v): one per composed Model (its class) and one per query addressed to a Model"""
+    m = Mirror(case)
+    h = []
+    for op, r in zip(case["ops"], res["outs"]):
+        cls = None
+        if op[0] == "new" and op[1] == "model":
+            cls = op[2]
+        elif op[0] == "query" and op[1] < len(m.objs) and m.objs[op[1]].kind == "model":
+            cls = m.objs[op[1]].cls
+        try:
+            m.apply(op)
+        except Exception:  # noqa  (the reference cannot follow: the oracle has reported the history)
+            break
+        if cls is not None:
+            obs = r.get("ctor")
+            h.append("(%d, %s)" % (cls, "None" if obs is None else "Some %s" % clist([cs(x) for x in obs])))
+    cl = clist([clist([cs(n) for n in names]) for names in case["classes"]])
+    return "CCase %s %s" % (cl, clist(h))
+
+
 HEADER = """From Coq Require Import ZArith List String Bool.
 Import ListNotations.
 From PAFC13 Require Import Model.
@@ -1148,7 +1306,7 @@ def run(ctx):
         rp = json.load(open(ctx.replay))
         if rp.get("case"):
             cases = [rp["case"]]
-    payload = [{"classes": c["classes"], "priors": c["priors"], "ops": c["ops"]} for c in cases]
+    payload = [case_key(c) for c in cases]
     chunks = [payload[i::common.NCPU] for i in range(common.NCPU)]
     chunks = [(i, ch) for i, ch in enumerate(chunks) if ch]
     outs = common.run_impl_parallel("c13_impl", [{"cases": ch} for _, ch in chunks], timeout=1500)
@@ -1159,11 +1317,12 @@ def run(ctx):
             return
         for j, r in enumerate(o["results"]):
             results[i + j * common.NCPU] = r
-    coq_cases, coq_idx = [], []
+    coq_cases, coq_idx, ccases = [], [], []
     regress = []
     for i, (c, r) in enumerate(zip(cases, results)):
-        key = {"classes": c["classes"], "priors": c["priors"], "ops": c["ops"]}
+        key = case_key(c)
         ctx.count_case(key, nontrivial(c), c.get("origin"))
+        ctx.hist("class-table", class_table_kind(c))
         ctx.hist("ops", (len(c["ops"]) // 10) * 10)
         for op in c["ops"]:
             ctx.hist("op", op[0] if op[0] != "query" else "query:" + op[2][0])
@@ -1185,6 +1344,7 @@ def run(ctx):
             ctx.failure("oracle", "op %d: %s" % (at, msg), key, classes=classes,
                         impl={"outs": [{k: v for k, v in rec.items() if k != "shadow"} for rec in r["outs"][max(0, at - 3):at + 1]]})
         coq_cases.append(coq_case(c, r))
+        ccases.append(coq_ccase(c, r))
         coq_idx.append(i)
         if i % 53 == 0:
             ctx.sample({"ops": c["ops"][:14], "origin": c.get("origin")}, limit=6)
@@ -1203,7 +1363,7 @@ def run(ctx):
         bad, log = ctx.eval_cases(HEADER, "case", "check_case", coq_cases, shard=40 if ctx.tier == "quick" else 120)
         for b in (bad or [])[:5]:
             i = coq_idx[b]
-            key = {"classes": cases[i]["classes"], "priors": cases[i]["priors"], "ops": cases[i]["ops"]}
+            key = case_key(cases[i])
             ctx.failure("correspondence", "model and implementation disagree on a history (origin %s)" % cases[i].get("origin"),
                         key, impl={"outs": [{k: v for k, v in rec.items() if k not in ("shadow",)} for rec in results[i]["outs"]],
                                    "frozen": results[i]["frozen"]},
@@ -1221,8 +1381,20 @@ def run(ctx):
                 i = coq_idx[free[b]]
                 ctx.failure("correspondence", "a history without finding labels does not satisfy the guard of C13_coherent_partial "
                             "(or the model's answers differ from the fresh composition)",
-                            {"classes": cases[i]["classes"], "priors": cases[i]["priors"], "ops": cases[i]["ops"]},
+                            case_key(cases[i]),
                             broken={"kind": "correspondence", "name": "C13.check_guard"}, found_input=False)
+        if os.path.exists(os.path.join(common.COQ, "C13", "ClassArgs.vo")):
+            badc, log = ctx.eval_cases(HEADER + "\nFrom PAFC13 Require Import ClassArgs.", "ccase", "check_ccase", ccases,
+                                       tag="classargs", shard=150 if ctx.tier == "quick" else 600)
+            for b in (badc or [])[:3]:
+                i = coq_idx[b]
+                ctx.failure("correspondence", "constructor_argument_names reported along the history differ from the memo keyed by the class "
+                            "(ClassArgs.class_args_run)", case_key(cases[i]),
+                            impl={"ctor": [rec.get("ctor") for rec in results[i]["outs"]]},
+                            broken={"kind": "correspondence", "name": "C13.check_ccase"},
+                            found_input=bool(oracle(cases[i], results[i])))
+        else:
+            ctx.obligation("correspondence:classargs", "correspondence", False, "ClassArgs.vo not built")
     else:
         ctx.obligation("correspondence:cases", "correspondence", False, "Model.vo not built")
 
